@@ -524,6 +524,12 @@ func run(cfg lib.Cfg) error {
 		if mid {
 			conc = 1 // "the k-th HTTP exchange" needs sequential partitions
 		}
+		if nig > 1 {
+			// several tasks on one client (maxreads > 1) keep segments cached across a reorg;
+			// which of them the client's five-segment cache has already evicted depends on the
+			// order in which concurrent partition fetches arrive: sequential partitions only
+			conc = 1
+		}
 		head := r.Range(3, 10)
 		sc := world(fmt.Sprintf("real-reorg-%d", i), shapes, batch, conc, head, r.U64()%1_000_000)
 		sc.Real = true
